@@ -164,10 +164,16 @@ Section Model.
 
   (* statuses.Get *)
   Definition cell (row : list (Z * Z)) (h : Z) : Z := match look h row with Some v => v | None => 0 end.
-  (* AllTrue / LengthComplaints / CompleteSuccess *)
+  (* AllTrue / LengthComplaints *)
   Definition all_true (row : list (Z * Z)) : bool := forallb (fun e => negb (snd e =? 1)) row.
   Definition complaints (row : list (Z * Z)) : Z := Z.of_nat (length (filter (fun e => snd e =? 1) row)).
-  Definition complete_success (s : st) : bool := forallb (fun e => all_true (d_row (snd e))) (s_d s).
+  (* DistKeyGenerator.completeSuccess: no complaint is left in the row of any
+     dealer that is not evicted.  The row of an evicted dealer is not looked
+     at: my_responses says nothing about such a dealer, so the node's own cell
+     in that row is known to nobody else (StatusMatrix.CompleteSuccess, which
+     looked at every row, is no longer used by ProcessResponses). *)
+  Definition complete_success (s : st) : bool :=
+    forallb (fun e => d_ev (snd e) || all_true (d_row (snd e))) (s_d s).
 
   (* NewStatusMatrix + the complaints a receiving node pre-sets in its own column *)
   Definition init_st (c : cfg) : st :=
